@@ -164,3 +164,6 @@ func TempDir(root, pattern string) string {
 	}
 	return d
 }
+
+// EventChannelCapacity is the capacity of the manager's header/data event channels.
+func EventChannelCapacity() int { return block.VerifEventInChLength() }
